@@ -35,6 +35,9 @@ type env struct {
 
 type evaluator struct {
 	ivs map[*ssa.Phi]string // induction variables -> atom
+	// named: values given a symbol of their own (the worker count actually used by the spawn
+	// loop when it is not simply a parameter, e.g. a clamped pool size)
+	named map[ssa.Value]string
 	// spawn loop facts for the last-worker guard
 	spawnIV  *ssa.Phi
 	spawnN   Poly
@@ -358,6 +361,9 @@ func (e *env) eval(v ssa.Value) GVal {
 	defer func() { e.ev.depth-- }()
 	if e.ev.depth > 60 {
 		return gOpaque("expression too deep")
+	}
+	if a, ok := e.ev.named[v]; ok {
+		return gPoly(pAtom(a))
 	}
 	switch x := v.(type) {
 	case *ssa.Const:
@@ -963,4 +969,43 @@ func lenientSingleStore(a *ssa.Alloc) ssa.Value {
 		return nil
 	}
 	return val
+}
+
+// paramBehind finds the integer parameter a value is derived from through φs and
+// conversions (the pool-size parameter behind a clamped worker count).
+func paramBehind(v ssa.Value) *ssa.Parameter {
+	seen := map[ssa.Value]bool{}
+	var walk func(v ssa.Value) *ssa.Parameter
+	walk = func(v ssa.Value) *ssa.Parameter {
+		if seen[v] {
+			return nil
+		}
+		seen[v] = true
+		switch x := v.(type) {
+		case *ssa.Parameter:
+			if isNumeric(x.Type()) {
+				return x
+			}
+		case *ssa.Phi:
+			for _, e := range x.Edges {
+				if p := walk(e); p != nil {
+					return p
+				}
+			}
+		case *ssa.Convert:
+			return walk(x.X)
+		case *ssa.UnOp:
+			if a, ok := x.X.(*ssa.Alloc); ok && x.Op == token.MUL {
+				for _, r := range ssau.Refs(a) {
+					if st, ok := r.(*ssa.Store); ok && st.Addr == ssa.Value(a) {
+						if p := walk(st.Val); p != nil {
+							return p
+						}
+					}
+				}
+			}
+		}
+		return nil
+	}
+	return walk(v)
 }
